@@ -294,7 +294,7 @@ def f_sign_eq(ta, tb, ctx):
 
 
 # ------------------------------------------------------------------ row facts
-def facts_from(alpha, base_ctx=None):
+def facts_from(alpha, base_ctx=None, derive=True):
     """substitution map and context implied by an assignment of the atoms"""
     mp = {}
     ctx = Ctx(known=dict(base_ctx.known) if base_ctx else {},
@@ -319,6 +319,15 @@ def facts_from(alpha, base_ctx=None):
     for _ in range(4):
         for a in list(mp):
             mp[a] = mp[a].subst({b: t for b, t in mp.items() if b is not a and b != a})
+    # positivity facts also hold in their substituted form
+    for k, v in alpha.items():
+        if derive and k[0] == "POS" and v:
+            try:
+                t = k[1].subst(mp)
+                if not t.is_const():
+                    ctx.pos.add(norm_pos(t))
+            except Unsupported:
+                pass
     return mp, ctx
 
 
@@ -341,7 +350,7 @@ def rekey(key, mp, ctx):
 
 def consistent(alpha, base_ctx=None):
     """False when the assignment contradicts itself after its own facts are substituted"""
-    mp, ctx = facts_from(alpha, base_ctx)
+    mp, ctx = facts_from(alpha, base_ctx, derive=False)
     for k, v in alpha.items():
         try:
             f = rekey(k, mp, ctx)
